@@ -36,6 +36,7 @@ abbrev Fd := Nat
 `Netpoll.Tie.Fd` (extracted by tools/extract on every run).  `descr` = (file, function, kind, call). -/
 inductive Site
   | finalizer_netfdClose    -- connection_impl.go  initFinalizer (closure)   c.netFD.Close()
+  | createListener_ln       -- net_listener.go     CreateListener            ln.Close()   (since the fix of F1)
   | listener_Close_file     -- net_listener.go     listener.Close            ln.file.Close()
   | listener_Close_ln       -- net_listener.go     listener.Close            ln.ln.Close()
   | netFD_Close             -- net_netfd_conn.go   netFD.Close               syscall.Close(c.fd)
@@ -56,6 +57,7 @@ inductive Site
 
 def Site.descr : Site → String × String × String × String
   | .finalizer_netfdClose    => ("connection_impl.go", "connection.initFinalizer", "netfd", "c.netFD.Close()")
+  | .createListener_ln       => ("net_listener.go", "CreateListener", "netlistener", "ln.Close()")
   | .listener_Close_file     => ("net_listener.go", "listener.Close", "osfile", "ln.file.Close()")
   | .listener_Close_ln       => ("net_listener.go", "listener.Close", "netlistener", "ln.ln.Close()")
   | .netFD_Close             => ("net_netfd_conn.go", "netFD.Close", "syscall", "syscall.Close(c.fd)")
@@ -74,13 +76,15 @@ def Site.descr : Site → String × String × String × String
 
 /-- source order (file, position) – the order of the extracted list -/
 def Site.ord : Site → Nat
-  | .finalizer_netfdClose => 0 | .listener_Close_rawfd => 1 | .listener_Close_file => 2 | .listener_Close_ln => 3
-  | .netFD_Close => 4 | .socket_sockopts => 5 | .socket_dial_netfdClose => 6 | .dialTCP_retry_connClose => 7
-  | .server_Close_ln => 8 | .server_Close_conn => 9 | .openPoll_eventfd_epfd => 10 | .openPoll_ctl_wfd => 11
-  | .openPoll_ctl_epfd => 12 | .handler_exit_wfd => 13 | .handler_exit_epfd => 14 | .sysSocket_setNonblock => 15
+  | .finalizer_netfdClose => 0 | .createListener_ln => 1 | .listener_Close_rawfd => 2 | .listener_Close_file => 3
+  | .listener_Close_ln => 4 | .netFD_Close => 5 | .socket_sockopts => 6 | .socket_dial_netfdClose => 7
+  | .dialTCP_retry_connClose => 8 | .server_Close_ln => 9 | .server_Close_conn => 10 | .openPoll_eventfd_epfd => 11
+  | .openPoll_ctl_wfd => 12 | .openPoll_ctl_epfd => 13 | .handler_exit_wfd => 14 | .handler_exit_epfd => 15
+  | .sysSocket_setNonblock => 16
 
 def Site.name : Site → String
-  | .finalizer_netfdClose => "finalizer_netfdClose" | .listener_Close_file => "listener_Close_file"
+  | .finalizer_netfdClose => "finalizer_netfdClose" | .createListener_ln => "createListener_ln"
+  | .listener_Close_file => "listener_Close_file"
   | .listener_Close_ln => "listener_Close_ln" | .netFD_Close => "netFD_Close" | .socket_sockopts => "socket_sockopts"
   | .socket_dial_netfdClose => "socket_dial_netfdClose" | .dialTCP_retry_connClose => "dialTCP_retry_connClose"
   | .server_Close_ln => "server_Close_ln" | .server_Close_conn => "server_Close_conn"
@@ -386,19 +390,38 @@ def lifeConvertListener (lfd : Fd) (fuel : Nat) : M Unit := do
   lnCloseLoop Listener.close fuel false ln
 
 /-- `CreateListener(network, addr)`, then `Close` calls.  `net.Listen` returns a TCP or Unix listener, so the
-two type tests of ConvertListener are decided. -/
+two type tests of ConvertListener are decided.  Since the fix of F1 an error of `ConvertListener` is followed by
+`ln.Close()` on what `net.Listen` opened (`File()` failed: nothing else is open; `SetNonblock` failed: the
+listener object with the duplicate is dropped, the duplicate stays open) and `return nil, err`. -/
 def lifeCreateListenerWith (close : Listener → M Listener) (fuel : Nat) : M Unit := do
   if ← ask .listen_udp then return ()
   if !(← ask .listen_ok) then return ()
   let lfd ← open_ 0                                   -- net.Listen
-  let some (ln, ok) ← convertTail { fd := lfd, tag := 0 } | return ()   -- File() failed: `ln` is NOT closed
-  if !ok then return ()
-  lnCloseLoop close fuel false ln
+  let w : OsFile := { fd := lfd, tag := 0 }
+  match ← convertTail w with
+  | none =>                                           -- File() failed
+    let _ ← w.close .createListener_ln                -- ln.Close()
+    return ()
+  | some (ln, ok) =>
+    if !ok then
+      let _ ← w.close .createListener_ln              -- ln.Close(); the duplicate is NOT closed
+      return ()
+    lnCloseLoop close fuel false ln
 
 def lifeCreateListener (fuel : Nat) : M Unit := lifeCreateListenerWith Listener.close fuel
 
 /-- the same with the old `Close` (regression witness for D15) -/
 def lifeCreateListenerOld (fuel : Nat) : M Unit := lifeCreateListenerWith (fun l => l.closeOld 1) fuel
+
+/-- `CreateListener` BEFORE the fix of F1 (`return ConvertListener(ln)`): an error of `ConvertListener` is passed
+on and what `net.Listen` opened is dropped without being closed.  Only for the regression witness. -/
+def lifeCreateListenerPreF1 (fuel : Nat) : M Unit := do
+  if ← ask .listen_udp then return ()
+  if !(← ask .listen_ok) then return ()
+  let lfd ← open_ 0
+  let some (ln, ok) ← convertTail { fd := lfd, tag := 0 } | return ()
+  if !ok then return ()
+  lnCloseLoop Listener.close fuel false ln
 
 /-! ## poller -/
 
@@ -461,13 +484,13 @@ def Kind.prog : Kind → M Unit
   | .poller f => lifePoller f
 
 /-- Outcomes assumed not to happen when claiming that nothing is left open (DESIGN §8 / evidence):
-* `ln_file_ok`, `ln_setNonblock_ok`: `File()` / `SetNonblock` failing inside `ConvertListener` leaves the
-  wrapped listener (and the duplicate) to the garbage collector's finalizers – `CreateListener` does not
-  close what `net.Listen` opened;
+* `ln_setNonblock_ok`: `SetNonblock` failing inside `ConvertListener` (after the duplicate was made) leaves the
+  duplicate to the garbage collector's finalizer: `ConvertListener` returns the listener AND the error, every
+  caller drops the listener;
 * `epollWait_ok`: `epoll_wait` on a valid epoll descriptor only fails with EINTR.
+`File()` failing needs no assumption any more (fix of F1: `CreateListener` closes what `net.Listen` opened).
 Nothing is assumed for `C15_close_owned` / `C15_once`. -/
 def noLeakAssumptions : Br → Option Bool
-  | .ln_file_ok => some true
   | .ln_setNonblock_ok => some true
   | .epollWait_ok => some true
   | _ => none
@@ -658,7 +681,7 @@ def sitesOf : Nat → Fd → M Unit → Nat → Nat
 
 /-- every site of the enumeration in source order -/
 def Site.all : List Site :=
-  [.finalizer_netfdClose, .listener_Close_rawfd, .listener_Close_file, .listener_Close_ln, .netFD_Close, .socket_sockopts,
+  [.finalizer_netfdClose, .createListener_ln, .listener_Close_rawfd, .listener_Close_file, .listener_Close_ln, .netFD_Close, .socket_sockopts,
    .socket_dial_netfdClose, .dialTCP_retry_connClose, .server_Close_ln, .server_Close_conn, .openPoll_eventfd_epfd,
    .openPoll_ctl_wfd, .openPoll_ctl_epfd, .handler_exit_wfd, .handler_exit_epfd, .sysSocket_setNonblock]
 
